@@ -885,3 +885,83 @@ Proof.
   - destruct (tc e); simpl in H; try discriminate. inversion H; subst.
     apply rigid_fixed_type; [apply closed_embed_iff; exact Hc | apply embed_no_generic].
 Qed.
+
+(* ---------- assignment targets: parseAssignmentTarget against spec.md "Assignments" ---------- *)
+Definition erase_step (k : kstep) : sstep :=
+  match k with KIdx it => SKIdx (erase it) | KDot => SKDot | KSlice => SKSlice | KAssert => SKAssert end.
+Definition spec_step (k : kstep) : bool := match k with KIdx it => spec_ty it | _ => true end.
+
+Lemma infer_id : forall t, spec_ty t = true -> has_empty t = false -> infer t = Some t.
+Proof.
+  induction t; simpl; intros Hs He; try discriminate; try reflexivity.
+  - rewrite (IHt Hs He); reflexivity.
+  - rewrite (IHt Hs He); reflexivity.
+Qed.
+
+Lemma fixed_type_keeps t : spec_ty (fixed_type t) = spec_ty t /\ has_empty (fixed_type t) = has_empty t.
+Proof. destruct t; simpl; auto. Qed.
+
+Lemma target_step_spec t k :
+  spec_ty t = true -> has_empty t = false -> spec_step k = true ->
+  match target_step_s (erase t) (erase_step k) with
+  | Some s => exists T, target_step t k = Some (Some T) /\ erase T = s /\ spec_ty T = true /\ has_empty T = false
+  | None => target_step t k = Some None
+  end.
+Proof.
+  intros Hs He Hk.
+  destruct t; simpl in Hs, He; try discriminate;
+    destruct k as [it| | |]; simpl in Hk; try reflexivity;
+    try (destruct it; simpl in Hk; try discriminate; try reflexivity);
+    simpl; unfold index_type, dot_type; simpl;
+    try (rewrite (infer_id _ Hs He);
+         eexists; split; [reflexivity|]; split; [apply erase_fixed_type|];
+         destruct (fixed_type_keeps t) as [A B]; rewrite A, B; auto).
+Qed.
+
+(* THE target theorem, for all root types and all chains: the chain is a
+   target by spec.md (a variable, an indexed array, a map field — never a
+   character of a string, a slice or a type assertion) exactly when
+   parseAssignmentTarget builds a node, and the node's type is the target's *)
+Theorem target_ok_iff : forall ks t,
+  spec_ty t = true -> has_empty t = false -> forallb spec_step ks = true ->
+  forall s, (TargetChain (erase t) (map erase_step ks) s <->
+             exists T, target_chain t ks = Some (Some T) /\ erase T = s).
+Proof.
+  induction ks as [|k ks IH]; intros t Hs He Hk s; simpl.
+  - split.
+    + inversion 1; subst. eexists; split; reflexivity.
+    + intros [T [E <-]]. inversion E; subst. constructor.
+  - simpl in Hk. apply andb_true_iff in Hk as [Hk1 Hk2].
+    rewrite <- target_chain_s_iff. simpl.
+    assert (St := target_step_spec t k Hs He Hk1).
+    destruct (target_step_s (erase t) (erase_step k)) as [s1|].
+    + destruct St as (T1 & E1 & <- & S1 & N1). rewrite E1.
+      rewrite target_chain_s_iff. apply IH; assumption.
+    + rewrite St. split; [discriminate | intros [T [E _]]; discriminate].
+Qed.
+
+(* parseAssignmentTarget never panics on specification types *)
+Corollary target_chain_no_crash : forall ks t,
+  spec_ty t = true -> has_empty t = false -> forallb spec_step ks = true -> target_chain t ks <> None.
+Proof.
+  induction ks as [|k ks IH]; intros t Hs He Hk; simpl; [discriminate|].
+  simpl in Hk. apply andb_true_iff in Hk as [Hk1 Hk2].
+  assert (St := target_step_spec t k Hs He Hk1).
+  destruct (target_step_s (erase t) (erase_step k)).
+  - destruct St as (T1 & E1 & _ & S1 & N1). rewrite E1. apply IH; assumption.
+  - rewrite St. discriminate.
+Qed.
+
+(* a character of a string is never a target, at any depth of the chain *)
+Corollary target_string_char_rejected ks t it rest :
+  spec_ty t = true -> has_empty t = false -> forallb spec_step ks = true ->
+  target_chain t ks = Some (Some TString) -> target_chain t (ks ++ KIdx it :: rest) = Some None.
+Proof.
+  revert t. induction ks as [|k ks IH]; intros t Hs He Hk H; simpl in *.
+  - inversion H; subst. reflexivity.
+  - apply andb_true_iff in Hk as [Hk1 Hk2].
+    assert (St := target_step_spec t k Hs He Hk1).
+    destruct (target_step_s (erase t) (erase_step k)).
+    + destruct St as (T1 & E1 & _ & S1 & N1). rewrite E1 in *. apply IH; assumption.
+    + rewrite St in H. discriminate.
+Qed.
